@@ -126,7 +126,7 @@ func Shrink(p *Program, budget int, fails func(*Program) bool) *Program {
 				c.WGDep = false
 				cands = append(cands, c)
 			}
-			if o.AImm && o.Imm != 0 && o.Kind != "exit" {
+			if o.AImm && o.Imm != 0 && o.Kind != "exit" && o.Kind != "sload" {
 				c := o
 				c.Imm = 0
 				cands = append(cands, c)
